@@ -3,7 +3,7 @@ C17 — properties is a layered mapping: inherited downward, never leaking upwar
 
 Theorems about model A (`Flatland/C17.lean`) against spec B (`Flatland/Spec/C17.lean`).
 -/
-import Proofs.Lemmas.C17Layer
+import Proofs.Lemmas.C17Inv
 namespace Flatland.C17.Proofs
 open Flatland.C17 Flatland.C17.Spec
 
@@ -648,5 +648,400 @@ theorem detached_history (i : InstId) (x : Inst) (m : Dict Val) (hloc : x.loc = 
     exact detached_history i x m hloc cs (step σ c).1
       (step_insts_other σ i x hx c (hall c (List.mem_cons_self ..)))
       (fun c' hc' => hall c' (List.mem_cons_of_mem _ hc'))
+
+/-! ## invariants along histories -/
+
+theorem classOp_state' (σ : State) (v : ClassId) (o : Op) :
+    (classOp σ v o).1 = σ ∨ ∃ d f, v < σ.classes.length ∧ σ.descOf v = some d ∧
+      (classOp σ v o).1 = σ.setFrame (σ.baseKey v d) f := by
+  unfold classOp
+  split
+  · rename_i hv
+    split
+    · left; rfl
+    · rename_i d hd
+      split
+      · left; rfl
+      · rcases tWrite_state σ v d o with h | ⟨f, h⟩
+        · left; exact h
+        · right; exact ⟨d, f, hv, hd, h⟩
+  · left; rfl
+
+theorem instOp_state' (σ : State) (i : InstId) (o : Op) :
+    (instOp σ i o).1 = σ ∨ ∃ x y, σ.insts[i]? = some x ∧ y.cls = x.cls ∧
+      (instOp σ i o).1 = setInst σ i y := by
+  unfold instOp
+  split
+  · left; rfl
+  · rename_i x hx
+    split
+    · right; exact ⟨x, { x with loc := .plain _ }, hx, rfl, rfl⟩
+    · split
+      · left; rfl
+      · split
+        · left; rfl
+        · right; exact ⟨x, { x with loc := .storage _ }, hx, rfl, rfl⟩
+
+/-- side condition on the inputs the model takes from Python: a C3 linearisation lists no class twice -/
+def CmdOK : Cmd → Prop
+  | .subclassMI tail => tail.Nodup
+  | _ => True
+
+/-- the command does not hand one `Properties` object to a second class -/
+def NoSharing : Cmd → Prop
+  | .usingShared _ _ => False
+  | _ => True
+
+theorem WF_classOp (σ : State) (hwf : WF σ) (v : ClassId) (o : Op) : WF (classOp σ v o).1 := by
+  rcases classOp_state' σ v o with e | ⟨d, f, hv, hd, e⟩ <;> rw [e]
+  · exact hwf
+  · exact WF_setFrame σ hwf _ f (baseKey_lt σ hwf v d hv hd)
+
+theorem mro_tail_lt (σ : State) (hwf : WF σ) (p : ClassId) : ∀ x ∈ σ.mroOf p, x < σ.classes.length :=
+  fun x hx => hwf.mro_lt p x hx
+
+theorem WF_instOp (σ : State) (hwf : WF σ) (i : InstId) (o : Op) : WF (instOp σ i o).1 := by
+  rcases instOp_state' σ i o with e | ⟨x, y, hx, hy, e⟩ <;> rw [e]
+  · exact hwf
+  · exact WF_setInst σ hwf i y (hy ▸ hwf.inst_lt i x hx)
+
+/-- the store stays well formed along every history -/
+theorem WF_step (σ : State) (hwf : WF σ) (cmd : Cmd) (hok : CmdOK cmd) : WF (step σ cmd).1 := by
+  cases cmd with
+  | op V o =>
+    cases V with
+    | cls c => exact WF_classOp σ hwf c o
+    | inst i => exact WF_instOp σ hwf i o
+  | subclass p =>
+    simp only [step]; split
+    · exact WF_addClass σ hwf _ none (fun x hx => hwf.mro_lt p x hx) (hwf.mro_nodup p) (by simp)
+    · exact hwf
+  | subclassMI tail =>
+    simp only [step]; split
+    · rename_i h
+      exact WF_addClass σ hwf tail none (fun x hx => by simpa using List.all_eq_true.1 h x hx) hok (by simp)
+    · exact hwf
+  | usingProps p init =>
+    simp only [step]; split
+    · exact WF_usingPropsStep σ hwf p init
+    · exact hwf
+  | usingShared p ow =>
+    simp only [step]; split
+    · split
+      · rename_i d hd
+        exact WF_addClass σ hwf _ (some d) (fun x hx => hwf.mro_lt p x hx) (hwf.mro_nodup p)
+          (fun d' h => by simp only [Option.some.injEq] at h; subst h; exact hwf.own_lt ow _ hd)
+      · exact hwf
+    · exact hwf
+  | withProps p ps =>
+    simp only [step]; split
+    · exact WF_classOp _ (WF_addClass σ hwf _ none (fun x hx => hwf.mro_lt p x hx) (hwf.mro_nodup p) (by simp)) _ _
+    · exact hwf
+  | newInst c =>
+    simp only [step]; split
+    · rename_i h; exact WF_addInst σ hwf _ h
+    · exact hwf
+  | newInstWith c m =>
+    simp only [step]; split
+    · rename_i h; exact WF_addInst σ hwf _ h
+    · exact hwf
+  | assign i m =>
+    simp only [step]; split
+    · exact hwf
+    · rename_i x hx; exact WF_setInst σ hwf i _ (hwf.inst_lt i x hx)
+  | newInstCompound c m =>
+    simp only [step]; split
+    · have h1 := WF_usingPropsStep σ hwf c m
+      exact WF_addInst _ h1 ⟨σ.classes.length, .storage []⟩ (by simp [usingPropsStep, addClass])
+    · exact hwf
+
+theorem NoShared_addClass (σ : State) (hs : NoShared σ) (tail : List ClassId) (own : Option DescId)
+    (hown : ∀ d, own = some d → ∀ c, σ.ownOf c ≠ some d) : NoShared (addClass σ tail own) := by
+  intro c c' d h h'
+  rw [ownOf_addClass] at h h'
+  split at h <;> split at h'
+  · rename_i e e'; rw [e, e']
+  · exact absurd h' (hown d h c')
+  · exact absurd h (hown d h' c)
+  · exact hs c c' d h h'
+
+theorem NoShared_congr {σ σ' : State} (hc : σ'.classes = σ.classes) (hs : NoShared σ) : NoShared σ' := by
+  intro c c' d h h'
+  rw [ownOf_congr hc] at h h'
+  exact hs c c' d h h'
+
+theorem NoShared_classOp (σ : State) (hs : NoShared σ) (v : ClassId) (o : Op) : NoShared (classOp σ v o).1 := by
+  rcases classOp_state σ v o with e | ⟨d, f, e⟩ <;> rw [e]
+  · exact hs
+  · exact NoShared_congr rfl hs
+
+theorem NoShared_usingPropsStep (σ : State) (hwf : WF σ) (hs : NoShared σ) (p : ClassId)
+    (init : List (Key × Val)) : NoShared (usingPropsStep σ p init) := by
+  apply NoShared_congr (σ := addClass σ (σ.mroOf p) (some σ.ndesc)) rfl
+  apply NoShared_addClass σ hs
+  intro d h c hc
+  simp only [Option.some.injEq] at h; subst h
+  exact Nat.lt_irrefl _ (hwf.own_lt c _ hc)
+
+/-- no history without `using(properties=<shared Properties object>)` ever makes two classes share one -/
+theorem NoShared_step (σ : State) (hwf : WF σ) (hs : NoShared σ) (cmd : Cmd) (hn : NoSharing cmd) :
+    NoShared (step σ cmd).1 := by
+  cases cmd with
+  | op V o =>
+    cases V with
+    | cls c => exact NoShared_classOp σ hs c o
+    | inst i =>
+      simp only [step]
+      rcases instOp_state σ i o with e | ⟨x, e⟩ <;> rw [e]
+      · exact hs
+      · exact NoShared_congr rfl hs
+  | subclass p =>
+    simp only [step]; split
+    · exact NoShared_addClass σ hs _ none (by simp)
+    · exact hs
+  | subclassMI tail =>
+    simp only [step]; split
+    · exact NoShared_addClass σ hs _ none (by simp)
+    · exact hs
+  | usingProps p init =>
+    simp only [step]; split
+    · exact NoShared_usingPropsStep σ hwf hs p init
+    · exact hs
+  | usingShared p ow => exact absurd hn (by simp [NoSharing])
+  | withProps p ps =>
+    simp only [step]; split
+    · exact NoShared_classOp _ (NoShared_addClass σ hs _ none (by simp)) _ _
+    · exact hs
+  | newInst c => simp only [step]; split <;> first | exact NoShared_congr rfl hs | exact hs
+  | newInstWith c m => simp only [step]; split <;> first | exact NoShared_congr rfl hs | exact hs
+  | assign i m => simp only [step]; split <;> first | exact hs | exact NoShared_congr rfl hs
+  | newInstCompound c m =>
+    simp only [step]; split
+    · exact NoShared_congr (σ := usingPropsStep σ c m) rfl (NoShared_usingPropsStep σ hwf hs c m)
+    · exact hs
+
+theorem WF_initState (init : List (Key × Val)) : WF (initState init) where
+  mro_lt := by
+    intro c x hx
+    cases c with
+    | zero => simp [initState, State.mroOf] at hx; simp [initState, hx]
+    | succ n => simp [initState, State.mroOf] at hx
+  mro_head := by
+    intro c hc
+    have : c = 0 := by simp [initState] at hc; exact hc
+    subst this; exact ⟨[], rfl⟩
+  mro_nodup := by
+    intro c
+    cases c with
+    | zero => simp [initState, State.mroOf]
+    | succ n => simp [initState, State.mroOf]
+  own_lt := by
+    intro c d h
+    cases c with
+    | zero => simp [initState, State.ownOf] at h; simp [initState, ← h]
+    | succ n => simp [initState, State.ownOf] at h
+  key_lt := by
+    intro key f h
+    simp only [initState, List.mem_singleton, Prod.mk.injEq] at h
+    rw [h.1]; simp [initState]
+  inst_lt := by intro i x h; simp [initState] at h
+
+theorem NoShared_initState (init : List (Key × Val)) : NoShared (initState init) := by
+  intro c c' d h h'
+  cases c <;> cases c' <;> simp_all [initState, State.ownOf]
+
+/-! ## no upward leak, for whole histories -/
+
+/-- the view exists in the store -/
+def ValidView (σ : State) : View → Prop
+  | .cls w => w < σ.classes.length
+  | .inst i => i < σ.insts.length
+
+theorem visible_congr_insts {σ σ' : State} (hc : σ'.classes = σ.classes) (hf : σ'.frames = σ.frames)
+    (W : View) (hi : ∀ i, W = .inst i → σ'.insts[i]? = σ.insts[i]?) : visible σ' W = visible σ W := by
+  funext k
+  cases W with
+  | cls w => simp only [visible, descOf_congr hc, tGet_congr hc hf]
+  | inst i => simp only [visible, hi i rfl, descOf_congr hc, iGet_congr hc hf]
+
+theorem viewMro_lt (σ : State) (hwf : WF σ) (W : View) : ∀ x ∈ viewMro σ W, x < σ.classes.length := by
+  intro x hx
+  cases W with
+  | cls w => exact hwf.mro_lt w x hx
+  | inst i =>
+    simp only [viewMro] at hx
+    split at hx
+    · rename_i y _; exact hwf.mro_lt y.cls x hx
+    · simp at hx
+
+theorem ne_of_lt' {a b : Nat} (h : a < b) : a ≠ b := Nat.ne_of_lt h
+
+/-- deriving a class (with any descriptor, any new frames under a *new* descriptor id) does not
+    change what an existing view shows -/
+theorem visible_extend (σ τ : State) (hwf : WF σ) (tail : List ClassId) (own : Option DescId)
+    (hcl : τ.classes = (addClass σ tail own).classes) (hin : τ.insts = σ.insts)
+    (hframes : ∀ key, (∀ d, key = FrameKey.init d → d < σ.ndesc) →
+      (∀ d c, key = FrameKey.cls d c → d < σ.ndesc) → AList.get? τ.frames key = AList.get? σ.frames key)
+    (W : View) (hW : ValidView σ W) : visible τ W = visible σ W := by
+  have hm : ∀ c, c < σ.classes.length → τ.mroOf c = σ.mroOf c := by
+    intro c hc
+    exact (mroOf_congr (σ := addClass σ tail own) hcl c).trans
+      (by rw [mroOf_addClass, if_neg (ne_of_lt' hc)])
+  have ho : ∀ c, c < σ.classes.length → τ.ownOf c = σ.ownOf c := by
+    intro c hc
+    exact (ownOf_congr (σ := addClass σ tail own) hcl c).trans
+      (by rw [ownOf_addClass, if_neg (ne_of_lt' hc)])
+  have hfr : ∀ w d, σ.descOf w = some d → ∀ x,
+      AList.get? τ.frames (σ.baseKey x d) = AList.get? σ.frames (σ.baseKey x d) := by
+    intro w d hd x
+    obtain ⟨y, _, hoy⟩ := descOf_owner σ w d hd
+    have hlt := hwf.own_lt y d hoy
+    apply hframes
+    · intro d' e; unfold State.baseKey at e; split at e <;> simp at e; exact e ▸ hlt
+    · intro d' c e; unfold State.baseKey at e; split at e <;> simp at e; exact e.1 ▸ hlt
+  cases W with
+  | cls w =>
+    exact visible_cls_ext σ τ w (hm w hW) (fun x hx => ho x (hwf.mro_lt w x hx))
+      (fun d hd x _ => hfr w d hd x)
+  | inst i =>
+    apply visible_inst_ext σ τ i (by rw [hin])
+    intro x hx
+    have hc := hwf.inst_lt i x hx
+    exact ⟨hm x.cls hc, fun y hy => ho y (hwf.mro_lt x.cls y hy), fun d hd y _ => hfr x.cls d hd y⟩
+
+theorem visible_addClass (σ : State) (hwf : WF σ) (tail : List ClassId) (own : Option DescId)
+    (W : View) (hW : ValidView σ W) : visible (addClass σ tail own) W = visible σ W :=
+  visible_extend σ _ hwf tail own rfl rfl (fun _ _ _ => rfl) W hW
+
+theorem visible_usingPropsStep (σ : State) (hwf : WF σ) (p : ClassId) (init : List (Key × Val))
+    (W : View) (hW : ValidView σ W) : visible (usingPropsStep σ p init) W = visible σ W := by
+  apply visible_extend σ (usingPropsStep σ p init) hwf (σ.mroOf p) (some σ.ndesc) rfl rfl _ W hW
+  intro key h1 h2
+  show AList.get? (AList.set σ.frames (.init σ.ndesc) _) key = _
+  rw [get?_set, if_neg]
+  intro e
+  exact Nat.lt_irrefl _ (h1 σ.ndesc e.symm)
+
+theorem viewMro_addClass (σ : State) (hwf : WF σ) (tail : List ClassId) (own : Option DescId)
+    (W : View) (hW : ValidView σ W) : viewMro (addClass σ tail own) W = viewMro σ W := by
+  cases W with
+  | cls w => simp only [viewMro, mroOf_addClass, if_neg (ne_of_lt' hW)]
+  | inst i =>
+    simp only [viewMro, show (addClass σ tail own).insts = σ.insts from rfl]
+    split
+    · rename_i x hx
+      simp only [mroOf_addClass, if_neg (ne_of_lt' (hwf.inst_lt i x hx))]
+    · rfl
+
+/-- the command goes through a view that `W` inherits from, or rebinds `W` itself -/
+def Touches (σ : State) (W : View) : Cmd → Prop
+  | .op V _ => Inherits σ W V
+  | .assign i _ => W = .inst i
+  | _ => False
+
+/-- **No upward leak, one step of any kind.**  A command that neither goes through a view `W`
+    inherits from nor rebinds `W` leaves what `W` shows unchanged: operations through parents'
+    siblings, cousins, other instances, every derivation and every instantiation. -/
+theorem step_untouched (σ : State) (hwf : WF σ) (hs : NoShared σ) (W : View) (hW : ValidView σ W)
+    (cmd : Cmd) (ht : ¬ Touches σ W cmd) : visible (step σ cmd).1 W = visible σ W := by
+  have happ : ∀ y : Inst, ∀ i, W = .inst i → (σ.insts ++ [y])[i]? = σ.insts[i]? := by
+    intro y i e; subst e; exact List.getElem?_append_left hW
+  cases cmd with
+  | op V o => exact no_upward_leak σ hs V W o ht
+  | subclass p => simp only [step]; split <;> first | exact visible_addClass σ hwf _ _ W hW | rfl
+  | subclassMI tail => simp only [step]; split <;> first | exact visible_addClass σ hwf _ _ W hW | rfl
+  | usingProps p init =>
+    simp only [step]; split <;> first | exact visible_usingPropsStep σ hwf p init W hW | rfl
+  | usingShared p ow =>
+    simp only [step]; split
+    · split <;> first | exact visible_addClass σ hwf _ _ W hW | rfl
+    · rfl
+  | withProps p ps =>
+    simp only [step]; split
+    · have hwf1 := WF_addClass σ hwf (σ.mroOf p) none (fun x hx => hwf.mro_lt p x hx) (hwf.mro_nodup p) (by simp)
+      have hs1 := NoShared_addClass σ hs (σ.mroOf p) none (by simp)
+      rcases classOp_state (addClass σ (σ.mroOf p) none) σ.classes.length (.update ps) with e | ⟨d, f, e⟩ <;> rw [e]
+      · exact visible_addClass σ hwf _ _ W hW
+      · rw [visible_setFrame _ hs1 _ d f W, visible_addClass σ hwf _ _ W hW]
+        rw [viewMro_addClass σ hwf _ _ W hW]
+        exact fun h => Nat.lt_irrefl _ (viewMro_lt σ hwf W _ h)
+    · rfl
+  | newInst c =>
+    simp only [step]; split
+    · exact visible_congr_insts (σ := σ) (σ' := { σ with insts := σ.insts ++ [_] }) rfl rfl W (happ _)
+    · rfl
+  | newInstWith c m =>
+    simp only [step]; split
+    · exact visible_congr_insts (σ := σ) (σ' := { σ with insts := σ.insts ++ [_] }) rfl rfl W (happ _)
+    · rfl
+  | assign i m =>
+    simp only [step]; split
+    · rfl
+    · exact visible_setInst σ i _ W ht
+  | newInstCompound c m =>
+    simp only [step]; split
+    · rw [← visible_usingPropsStep σ hwf c m W hW]
+      refine visible_congr_insts (σ := usingPropsStep σ c m)
+        (σ' := { usingPropsStep σ c m with insts := (usingPropsStep σ c m).insts ++ [_] }) rfl rfl W ?_
+      intro i e; subst e
+      exact List.getElem?_append_left (show i < σ.insts.length from hW)
+    · rfl
+
+theorem length_mono (σ : State) (cmd : Cmd) :
+    σ.classes.length ≤ (step σ cmd).1.classes.length ∧ σ.insts.length ≤ (step σ cmd).1.insts.length := by
+  cases cmd with
+  | op V o =>
+    cases V with
+    | cls c =>
+      simp only [step]
+      rcases classOp_state σ c o with e | ⟨d, f, e⟩ <;> rw [e] <;> exact ⟨Nat.le_refl _, Nat.le_refl _⟩
+    | inst i =>
+      simp only [step]
+      rcases instOp_state σ i o with e | ⟨x, e⟩ <;> rw [e]
+      · exact ⟨Nat.le_refl _, Nat.le_refl _⟩
+      · simp [setInst]
+  | subclass p => simp only [step]; split <;> simp [addClass]
+  | subclassMI tail => simp only [step]; split <;> simp [addClass]
+  | usingProps p init => simp only [step]; split <;> simp [usingPropsStep, addClass]
+  | usingShared p ow =>
+    simp only [step]; split
+    · split <;> simp [addClass]
+    · simp
+  | withProps p ps =>
+    simp only [step]; split
+    · rcases classOp_state (addClass σ (σ.mroOf p) none) σ.classes.length (.update ps) with e | ⟨d, f, e⟩ <;>
+        rw [e] <;> simp [addClass, State.setFrame]
+    · simp
+  | newInst c => simp only [step]; split <;> simp
+  | newInstWith c m => simp only [step]; split <;> simp
+  | assign i m => simp only [step]; split <;> simp [setInst]
+  | newInstCompound c m => simp only [step]; split <;> simp [usingPropsStep, addClass]
+
+theorem ValidView_step (σ : State) (W : View) (hW : ValidView σ W) (cmd : Cmd) :
+    ValidView (step σ cmd).1 W := by
+  have := length_mono σ cmd
+  cases W with
+  | cls w => exact Nat.lt_of_lt_of_le hW this.1
+  | inst i => exact Nat.lt_of_lt_of_le hW this.2
+
+/-- along the history, no command touches `W` (judged in the state it is executed in) -/
+def Untouched (W : View) : State → List Cmd → Prop
+  | _, [] => True
+  | σ, c :: cs => ¬ Touches σ W c ∧ Untouched W (step σ c).1 cs
+
+/-- **No upward leak, all histories.**  Whatever is done — in any order and any number of
+    times — through views `W` does not inherit from, and whatever is derived or instantiated,
+    `W` keeps showing the same mapping. -/
+theorem no_upward_leak_history (W : View) :
+    ∀ (cmds : List Cmd) (σ : State), WF σ → NoShared σ → ValidView σ W →
+      (∀ c ∈ cmds, CmdOK c ∧ NoSharing c) → Untouched W σ cmds →
+      visible (run σ cmds).1 W = visible σ W
+  | [], _, _, _, _, _, _ => rfl
+  | c :: cs, σ, hwf, hs, hW, hall, hu => by
+    have hc := hall c (List.mem_cons_self ..)
+    simp only [run]
+    rw [no_upward_leak_history W cs (step σ c).1 (WF_step σ hwf c hc.1) (NoShared_step σ hwf hs c hc.2)
+      (ValidView_step σ W hW c) (fun c' h' => hall c' (List.mem_cons_of_mem _ h')) hu.2]
+    exact step_untouched σ hwf hs W hW c hu.1
 
 end Flatland.C17.Proofs
